@@ -12,6 +12,7 @@ pub fn case_json(prop: &str, verif_seed: u64, idx: u64) -> Value {
         Engine::Wal => serde_json::to_value(crate::walsim::gen_case(verif_seed, idx)).unwrap(),
         Engine::Wire => serde_json::to_value(crate::wiresim::gen_case(verif_seed, idx)).unwrap(),
         Engine::Thread => serde_json::to_value(crate::threadsim::gen_case(verif_seed, idx)).unwrap(),
+        Engine::Btree => serde_json::to_value(crate::btsim::gen_case(prop, verif_seed, idx)).unwrap(),
         _ => json!({}),
     }
 }
@@ -23,6 +24,7 @@ pub fn sample_json(prop: &str, verif_seed: u64, idx: u64) -> Value {
         Engine::Wal => crate::walsim::sample_of(&crate::walsim::gen_case(verif_seed, idx)),
         Engine::Wire => crate::wiresim::sample_of(&crate::wiresim::gen_case(verif_seed, idx)),
         Engine::Thread => crate::threadsim::sample_of(&crate::threadsim::gen_case(verif_seed, idx)),
+        Engine::Btree => crate::btsim::sample_of(&crate::btsim::gen_case(prop, verif_seed, idx)),
         _ => json!({}),
     }
 }
@@ -80,6 +82,7 @@ pub fn run_one(prop: &str, verif_seed: u64, idx: u64) -> RunResult {
         Engine::Wal => crate::walsim::run_case(&crate::walsim::gen_case(verif_seed, idx), idx),
         Engine::Wire => crate::wiresim::run_case(&crate::wiresim::gen_case(verif_seed, idx), idx),
         Engine::Thread => crate::threadsim::run_case(&crate::threadsim::gen_case(verif_seed, idx), idx),
+        Engine::Btree => crate::btsim::run_case(&crate::btsim::gen_case(prop, verif_seed, idx), idx),
         _ => unimplemented!(),
     }
 }
@@ -115,6 +118,9 @@ pub fn replay_raw(path: &str, mut out: std::fs::File) -> i32 {
     } else if engine.starts_with("E2") {
         let case: SqlReplay = serde_json::from_value(v).expect("crash replay");
         crate::crashsim::run_case(&case, 0)
+    } else if engine.starts_with("E3b") {
+        let case: crate::btsim::BtReplay = serde_json::from_value(v).expect("btree replay");
+        crate::btsim::run_case(&case, 0)
     } else if engine.starts_with("E4") {
         let case: crate::threadsim::ThreadReplay = serde_json::from_value(v).expect("thread replay");
         crate::threadsim::run_case(&case, 0)
